@@ -6,11 +6,15 @@ VERIF = os.path.dirname(HERE)
 
 ALL = ["C%02d" % i for i in range(1, 36)]
 
-CLAIMS = {
- "C08": dict(spec="Store.tla", technique="TLA+ refinement (StoreImpl grouping/slot model vs LWW map) checked by TLC; TLC-simulated write histories replayed into the real DataService for all 11 timeframes",
-             text="TLC checks exhaustively (bounded intervals/values/rows/requests) that the implementation-shaped bucket model refines the last-writer-wins interval map; TLC-generated histories are replayed step by step into the real server (Create/Write/Query) for every supported timeframe, boundary intervals (Jan 1, leap day, last interval, two years) and every fixed-width column type, and the real query result is compared with the abstract state after every request.",
-             note="Trusted: TLC, the Python concretisation (interval ids -> epochs, value ids -> per-type boundary values), UTC time zone. Histories are bounded (5 interval ids, 2 value ids, <=3 rows per request, 3 requests)."),
-}
+import importlib, sys
+sys.path.insert(0, HERE)
+sys.path.insert(0, os.path.join(VERIF, "checks"))
+CLAIMS = {}
+for f in sorted(os.listdir(os.path.join(VERIF, "checks"))):
+    if f.endswith(".py") and not f.startswith("_"):
+        mod = importlib.import_module(f[:-3])
+        if getattr(mod, "READY", False):
+            CLAIMS.update(getattr(mod, "CLAIMS", {}))
 
 NA = {
  "C10": "IEEE-754 rounding at each of 1e9 nanosecond offsets: no state or case analysis for TLC to explore, TLC integers are 32-bit; a TLA+ spec could only restate the contract (see DESIGN.md section 8).",
@@ -35,7 +39,7 @@ def main():
             "evidence_file": "/verif/evidence/%s.json" % pid,
             "replay_cmd_template": "python3 tools/check.py --replay {path}",
             "engine": "tlc+replay",
-            "level_claimed": {"category": "model_checking", "text": c["text"], "design_ref": "DESIGN.md section 6 (%s)" % pid},
+            "level_claimed": {"category": c.get("category", "model_checking"), "text": c["text"], "design_ref": "DESIGN.md section 6 (%s)" % pid},
             "level_note": c["note"],
             "technique": c["technique"],
         })
